@@ -245,14 +245,65 @@ theorem beginContinue_handler (st : Story) (b : Bool) : (st.beginContinue b).han
   · simp [Story.setCore]
   · split <;> rfl
 
-/-- The block that finishes a line leaves no snapshot, no unsafe flag, no async
-    flag, and keeps the recursion count and the handler setting. -/
-theorem finishContinue_fields (st st' : Story) (changed : List (String × Val))
-    (h : st.finishContinue = some (st', changed)) :
-    st'.snapshot = none ∧ st'.sawUnsafe = false ∧ st'.asyncActive = false ∧ st'.recCount = st.recCount
-    ∧ st'.handler = st.handler := by
-  unfold Story.finishContinue at h
-  simp only at h
+theorem endChecks_fields (st : Story) :
+    st.endChecks.snapshot = st.snapshot ∧ st.endChecks.recCount = st.recCount
+    ∧ st.endChecks.handler = st.handler := by
+  refine ⟨?_, ?_, endChecks_handler st⟩
+  · unfold Story.endChecks
+    simp only
+    have key : ∀ (s : Story) (m : String), (s.addError m false).snapshot = s.snapshot :=
+      fun s m => addError_snapshot s m false
+    split
+    · split
+      · split
+        · rw [key, key]
+        · split
+          · rw [key, key]
+          · split
+            · rw [key, key]
+            · rw [key, key]
+      · rw [key]
+    · split
+      · split
+        · rw [key]
+        · split
+          · rw [key]
+          · split
+            · rw [key]
+            · rw [key]
+      · rfl
+  · unfold Story.endChecks
+    simp only
+    have key : ∀ (s : Story) (m : String), (s.addError m false).recCount = s.recCount :=
+      fun s m => (addError_same s m false).recCount
+    split
+    · split
+      · split
+        · rw [key, key]
+        · split
+          · rw [key, key]
+          · split
+            · rw [key, key]
+            · rw [key, key]
+      · rw [key]
+    · split
+      · split
+        · rw [key]
+        · split
+          · rw [key]
+          · split
+            · rw [key]
+            · rw [key]
+      · rfl
+
+/-- The first half of finishing a line: no snapshot, no unsafe flag; recursion
+    count and handler setting kept. -/
+theorem prepareFinish_fields (st : Story) :
+    st.prepareFinish.snapshot = none ∧ st.prepareFinish.sawUnsafe = false
+    ∧ st.prepareFinish.recCount = st.recCount ∧ st.prepareFinish.handler = st.handler
+    ∧ st.prepareFinish.asyncActive = st.asyncActive := by
+  unfold Story.prepareFinish
+  simp only
   have hsnap : ∀ (s : Story), (if s.snapshot.isSome then s.restoreSnapshot else s).snapshot = none := by
     intro s
     split
@@ -262,73 +313,75 @@ theorem finishContinue_fields (st st' : Story) (changed : List (String × Val))
       | none => rfl
       | some x => simp [hs] at hn
   have hrec : ∀ (s : Story), (if s.snapshot.isSome then s.restoreSnapshot else s).recCount = s.recCount
-      ∧ (if s.snapshot.isSome then s.restoreSnapshot else s).handler = s.handler := by
+      ∧ (if s.snapshot.isSome then s.restoreSnapshot else s).handler = s.handler
+      ∧ (if s.snapshot.isSome then s.restoreSnapshot else s).asyncActive = s.asyncActive := by
     intro s; split
-    · exact ⟨(restoreSnapshot_same s).recCount, (restoreSnapshot_same s).handler⟩
-    · exact ⟨rfl, rfl⟩
-  generalize hst2 : (if st.snapshot.isSome then st.restoreSnapshot else st) = st2 at h
+    · exact ⟨(restoreSnapshot_same s).recCount, (restoreSnapshot_same s).handler, (restoreSnapshot_same s).asyncActive⟩
+    · exact ⟨rfl, rfl, rfl⟩
+  generalize hst2 : (if st.snapshot.isSome then st.restoreSnapshot else st) = st2
   have h2s : st2.snapshot = none := by rw [← hst2]; exact hsnap st
-  have h2r : st2.recCount = st.recCount ∧ st2.handler = st.handler := by rw [← hst2]; exact hrec st
-  generalize hst3 : (if !st2.canContinue then st2.endChecks else st2) = st3 at h
-  have h3 : st3.snapshot = none ∧ st3.recCount = st.recCount ∧ st3.handler = st.handler := by
-    rw [← hst3]
+  have h2r := hrec st
+  rw [hst2] at h2r
+  have hasync : ∀ (s : Story), (if !s.canContinue then s.endChecks else s).asyncActive = s.asyncActive := by
+    intro s; split
+    · unfold Story.endChecks
+      simp only
+      have key : ∀ (t : Story) (m : String), (t.addError m false).asyncActive = t.asyncActive :=
+        fun t m => (addError_same t m false).asyncActive
+      split
+      · split
+        · split
+          · rw [key, key]
+          · split
+            · rw [key, key]
+            · split
+              · rw [key, key]
+              · rw [key, key]
+        · rw [key]
+      · split
+        · split
+          · rw [key]
+          · split
+            · rw [key]
+            · split
+              · rw [key]
+              · rw [key]
+        · rfl
+    · rfl
+  have h3 : (if !st2.canContinue then st2.endChecks else st2).snapshot = none
+      ∧ (if !st2.canContinue then st2.endChecks else st2).recCount = st.recCount
+      ∧ (if !st2.canContinue then st2.endChecks else st2).handler = st.handler := by
     split
-    · refine ⟨?_, ?_, (endChecks_handler st2).trans h2r.2⟩
-      · unfold Story.endChecks
-        simp only
-        have key : ∀ (s : Story) (m : String), (s.addError m false).snapshot = s.snapshot :=
-          fun s m => addError_snapshot s m false
-        split
-        · split
-          · split
-            · rw [key, key]; exact h2s
-            · split
-              · rw [key, key]; exact h2s
-              · split
-                · rw [key, key]; exact h2s
-                · rw [key, key]; exact h2s
-          · rw [key]; exact h2s
-        · split
-          · split
-            · rw [key]; exact h2s
-            · split
-              · rw [key]; exact h2s
-              · split
-                · rw [key]; exact h2s
-                · rw [key]; exact h2s
-          · exact h2s
-      · unfold Story.endChecks
-        simp only
-        have key : ∀ (s : Story) (m : String), (s.addError m false).recCount = s.recCount :=
-          fun s m => (addError_same s m false).recCount
-        split
-        · split
-          · split
-            · rw [key, key]; exact h2r.1
-            · split
-              · rw [key, key]; exact h2r.1
-              · split
-                · rw [key, key]; exact h2r.1
-                · rw [key, key]; exact h2r.1
-          · rw [key]; exact h2r.1
-        · split
-          · split
-            · rw [key]; exact h2r.1
-            · split
-              · rw [key]; exact h2r.1
-              · split
-                · rw [key]; exact h2r.1
-                · rw [key]; exact h2r.1
-          · exact h2r.1
-    · exact ⟨h2s, h2r.1, h2r.2⟩
+    · obtain ⟨a, b, c⟩ := endChecks_fields st2
+      exact ⟨a.trans h2s, b.trans h2r.1, c.trans h2r.2.1⟩
+    · exact ⟨h2s, h2r.1, h2r.2.1⟩
+  exact ⟨h3.1, trivial, h3.2.1, h3.2.2, (hasync st2).trans h2r.2.2⟩
+
+theorem closeObservation_fields (st st' : Story) (changed : List (String × Val))
+    (h : st.closeObservation = some (st', changed)) :
+    st'.snapshot = st.snapshot ∧ st'.sawUnsafe = st.sawUnsafe ∧ st'.asyncActive = false
+    ∧ st'.recCount = st.recCount ∧ st'.handler = st.handler := by
+  unfold Story.closeObservation at h
   split at h
-  · split at h
+  · simp only at h
+    split at h
     · simp only [Option.some.injEq, Prod.mk.injEq] at h
       rw [← h.1]
-      exact ⟨h3.1, rfl, rfl, h3.2.1, h3.2.2⟩
+      exact ⟨rfl, rfl, rfl, rfl, rfl⟩
     · cases h
   · simp only [Option.some.injEq, Prod.mk.injEq] at h
     rw [← h.1]
-    exact ⟨h3.1, rfl, rfl, h3.2.1, h3.2.2⟩
+    exact ⟨rfl, rfl, rfl, rfl, rfl⟩
+
+/-- The block that finishes a line leaves no snapshot, no unsafe flag, no async
+    flag, and keeps the recursion count and the handler setting. -/
+theorem finishContinue_fields (st st' : Story) (changed : List (String × Val))
+    (h : st.finishContinue = some (st', changed)) :
+    st'.snapshot = none ∧ st'.sawUnsafe = false ∧ st'.asyncActive = false ∧ st'.recCount = st.recCount
+    ∧ st'.handler = st.handler := by
+  unfold Story.finishContinue at h
+  obtain ⟨c1, c2, c3, c4, c5⟩ := closeObservation_fields _ _ _ h
+  obtain ⟨p1, p2, p3, p4, _⟩ := prepareFinish_fields st
+  exact ⟨c1.trans p1, c2.trans p2, c3, c4.trans p3, c5.trans p4⟩
 
 end Ink
